@@ -15,6 +15,7 @@ class Site:
         self.parts = {p: None for p in PARTS}      # None | dict(kind='kernel'|'closure', name, expr|reason)
         self.nargs = {p: 0 for p in PARTS}          # number of values handed to each part (None: not a literal list)
         self.coeffs = None                           # for from_distr_coeffs: number of coefficients
+        self.coeff_exprs = None                      # ... and their expressions when they are module constants
 
     @property
     def ident(self):
@@ -141,6 +142,16 @@ def fill(tr, m, s, call, nested):
         s.parts["sing"] = dict(kind="builtin", name="sing_from_distr_coeffs")
         s.parts["loc"] = dict(kind="builtin", name="loc_from_distr_coeffs")
         s.coeffs = args_len(nodes.get("coeffs"))
+        s.coeff_exprs = None
+        cn = nodes.get("coeffs")
+        if isinstance(cn, (ast.List, ast.Tuple)):
+            s.coeff_exprs = []
+            for e in cn.elts:
+                try:
+                    v = tr.expr(m, e, {}, None)
+                    s.coeff_exprs.append(v.re if v.im is None else None)
+                except Opaque:
+                    s.coeff_exprs.append(None)
         s.nargs["reg"] = args_len(nodes.get("reg_args"))
         s.nargs["sing"] = None if s.coeffs is None else max(s.coeffs - 1, 0)
         s.nargs["loc"] = s.coeffs
